@@ -661,3 +661,84 @@ func boolParamsOf(fn *ssa.Function, cond ssa.Value) map[*ssa.Parameter]bool {
 	})
 	return out
 }
+
+func init() {
+	register(&Rule{ID: "R-ENDSTICKY", Min: 5, Run: ruleEndSticky,
+		Doc: "every operator that owns a step cursor and a window end tests `cursor > maxt` and returns the end-of-stream (nil, nil) before it produces anything: the test dominates every batch return, so a stream that has ended stays ended however often Next is called"})
+	mutant(Mutant{Rule: "R-ENDSTICKY", Name: "literal-restarts-after-end", File: "execution/scan/literal_selector.go",
+		Old: "\tif o.currentStep > o.maxt {\n\t\treturn nil, nil\n\t}\n", New: "", Expect: "numberLiteralSelector"})
+}
+
+func ruleEndSticky(p *core.Program) []core.Obligation {
+	const rule = "R-ENDSTICKY"
+	var obs []core.Obligation
+	for _, fn := range p.Funcs {
+		recv := recvNamed(fn)
+		if recv == nil || fn.Name() != "Next" || fn.Parent() != nil {
+			continue
+		}
+		st, _ := recv.Underlying().(*types.Struct)
+		has := map[string]bool{}
+		for i := 0; st != nil && i < st.NumFields(); i++ {
+			has[st.Field(i).Name()] = true
+		}
+		if !has["maxt"] || !has["currentStep"] {
+			continue
+		}
+		key := recv.Obj().Name() + ".Next tests the end of the window first"
+		// the end test: If (load currentStep > load maxt) whose true branch returns (nil, nil)
+		var test *ssa.BasicBlock
+		for _, b := range fn.Blocks {
+			iff := core.IfOf(b)
+			if iff == nil {
+				continue
+			}
+			bo, ok := iff.Cond.(*ssa.BinOp)
+			if !ok || bo.Op != token.GTR {
+				continue
+			}
+			lx, ly := core.Deref(bo.X), core.Deref(bo.Y)
+			if lx == nil || ly == nil {
+				continue
+			}
+			_, fx, _, ok1 := core.FieldRef(lx)
+			_, fy, _, ok2 := core.FieldRef(ly)
+			if !ok1 || !ok2 || fx != "currentStep" || fy != "maxt" {
+				continue
+			}
+			endReturn := false
+			for _, x := range b.Succs[0].Instrs {
+				if ret, ok := x.(*ssa.Return); ok {
+					rs := core.RetResults(ret)
+					if len(rs) == 2 && core.IsNilConst(rs[0]) && core.IsNilConst(rs[1]) {
+						endReturn = true
+					}
+				}
+			}
+			if endReturn && (test == nil || b.Dominates(test)) {
+				test = b
+			}
+		}
+		if test == nil {
+			obs = append(obs, core.Ob(rule, key, p.Pos(fn.Pos()), core.FuncName(fn), core.Violated, "Next has no `currentStep > maxt => return nil, nil` test: after the window is exhausted a further call produces step vectors again (past the end, or from a restarted child)"))
+			continue
+		}
+		bad := ""
+		core.EachInstr(fn, func(b *ssa.BasicBlock, i int, ins ssa.Instruction) {
+			ret, ok := ins.(*ssa.Return)
+			if !ok || b == fn.Recover {
+				return
+			}
+			rs := core.RetResults(ret)
+			if len(rs) == 2 && !core.IsNilConst(rs[0]) && !core.BranchDominates(test, 1, b) {
+				bad = p.Pos(ret.Pos())
+			}
+		})
+		if bad != "" {
+			obs = append(obs, core.Ob(rule, key, p.Pos(fn.Pos()), core.FuncName(fn), core.Violated, "the batch returned at "+bad+" is not behind the end-of-window test"))
+		} else {
+			obs = append(obs, core.Ob(rule, key, p.Pos(fn.Pos()), core.FuncName(fn), core.Held, "the end test dominates every batch return"))
+		}
+	}
+	return obs
+}
